@@ -1468,6 +1468,20 @@ fn parse_unary_expression(tokens: &mut Tokens) -> Result<Expression, Error>
 		{
 			tokens.pop_front();
 			let location_of_op = tokens.last_location.clone();
+			// The magnitude of i128::MIN does not fit in a positive i128,
+			// so the decimal literal is lexed as a bit integer.
+			let is_magnitude_of_min = match peek(tokens)
+			{
+				Some(Token::NakedDecimal(value)) =>
+				{
+					*value == i128::MIN.unsigned_abs()
+				}
+				Some(Token::SuffixedInteger {
+					value,
+					suffix_type: ValueType::Int128,
+				}) => *value == i128::MIN.unsigned_abs(),
+				_ => false,
+			};
 			let expr = parse_primary_expression(tokens)?;
 			let location =
 				location_of_op.clone().combined_with(expr.location());
@@ -1482,6 +1496,18 @@ fn parse_unary_expression(tokens: &mut Tokens) -> Result<Expression, Error>
 					// All values 1..=2^(N-1) are valid as negatives.
 					Ok(Expression::SignedIntegerLiteral {
 						value: -value,
+						value_type,
+						location,
+					})
+				}
+				Expression::BitIntegerLiteral {
+					value: _,
+					value_type,
+					location: _,
+				} if is_magnitude_of_min =>
+				{
+					Ok(Expression::SignedIntegerLiteral {
+						value: i128::MIN,
 						value_type,
 						location,
 					})
